@@ -574,7 +574,7 @@ func C09(r *ck.Run) {
 	if r.Thorough() {
 		depth = 5
 	}
-	r.Rule(fmt.Sprintf("breadth-first search over every program of length <= %d of put / refused put (short body) / refused multipart completion (wrong object checksum) / delete / delete-by-version (newest, oldest, middle, null, a delete marker, unknown id) / copy / copy-by-version / multipart-complete / suspend / enable on two keys, from a fresh versioning-enabled bucket, from a bucket whose object predates enabling (null version) from a bucket whose key has a version plus a newer null version written while suspended, and from a Suspended bucket whose key has a version, on a real posix backend with versioning directory (xattr and sidecar metadata); a state is the shortest program reaching it, successors are computed by replay, states are deduplicated on (reference version model with ids canonicalised, file counts); after EVERY step a second backend instance checks GET by key, ListObjects / ListObjectsV2 (exactly the keys whose newest entry is an object), GET and HEAD by every version id, and ListObjectVersions with max-keys 1, 2, 1000 following the returned markers against the reference model; plus paged ListObjectVersions walks (max-keys 1, 2, 3) over key sets in which a sibling sorts before '/' with null versions, id versions and both: the walk ends and yields every version exactly once; distinct = distinct state", depth))
+	r.Rule(fmt.Sprintf("breadth-first search over every program of length <= %d of put / refused put (short body) / refused multipart completion (wrong object checksum) / delete / delete-by-version (newest, oldest, middle, null, a delete marker, unknown id) / copy / copy-by-version / multipart-complete / suspend / enable on two keys, from a fresh versioning-enabled bucket, from a bucket whose object predates enabling (null version) from a bucket whose key has a version plus a newer null version written while suspended, from a Suspended bucket whose key has a version, and from a bucket whose key has a version, a null delete marker written while suspended and a newer version (and, beside those, a null version that superseded that marker), on a real posix backend with versioning directory (xattr and sidecar metadata); a state is the shortest program reaching it, successors are computed by replay, states are deduplicated on (reference version model with ids canonicalised, file counts); after EVERY step a second backend instance checks GET by key, ListObjects / ListObjectsV2 (exactly the keys whose newest entry is an object), GET and HEAD by every version id, and ListObjectVersions with max-keys 1, 2, 1000 following the returned markers against the reference model; plus paged ListObjectVersions walks (max-keys 1, 2, 3) over key sets in which a sibling sorts before '/' with null versions, id versions and both: the walk ends and yields every version exactly once; distinct = distinct state", depth))
 	r.Assume("operations are at least one clock tick apart (file mtimes are pinned to a logical clock after each step); a DELETE without id of a key that has no versions may or may not create a marker (the answer says which); deleting an unknown version id may fail or be a no-op")
 	cfgs := []pxCfg{{Versioning: true}, {Versioning: true, Sidecar: true}}
 	if r.Thorough() {
@@ -589,7 +589,7 @@ func C09(r *ck.Run) {
 			if r.ShardI <= 0 {
 				c09ListingTraps(r, st, cfg.String())
 			}
-			for start := 0; start < 4; start++ {
+			for start := 0; start < 6; start++ {
 				type node struct{ hist []int }
 				// replay returns the model after hist, or ok=false if an anomaly was reported on the way
 				replay := func(hist []int) (*c09Model, string, bool) {
@@ -642,6 +642,45 @@ func C09(r *ck.Run) {
 						m.Status = "Suspended"
 						m.Keys["k1"] = []c09Ver{{out.VersionID, 0, false}}
 					}
+					if start == 4 || start == 5 {
+						// k1: a version written while Enabled, a null delete marker written while Suspended, and a
+						// newer version written after re-enabling (the null marker is kept among the stored versions)
+						out, err := st.A.PutObject(st.ctx(), s3response.PutObjectInput{Bucket: sp(c09Bucket), Key: sp("k1"), Body: bytes.NewReader(vals[0].Body), ContentLength: i64(int64(len(vals[0].Body))), ContentType: &vals[0].CT, Metadata: map[string]string{"w": vals[0].Meta}})
+						if err != nil || out.VersionID == "" {
+							ck.Fatal("seed version: %v", err)
+						}
+						st.pinTimes(-4)
+						if err := st.A.PutBucketVersioning(st.ctx(), c09Bucket, types.BucketVersioningStatusSuspended); err != nil {
+							ck.Fatal("suspend: %v", err)
+						}
+						if _, err := st.A.DeleteObject(st.ctx(), &s3.DeleteObjectInput{Bucket: sp(c09Bucket), Key: sp("k1")}); err != nil {
+							ck.Fatal("seed null marker: %v", err)
+						}
+						st.pinTimes(-3)
+						if err := st.A.PutBucketVersioning(st.ctx(), c09Bucket, types.BucketVersioningStatusEnabled); err != nil {
+							ck.Fatal("re-enable: %v", err)
+						}
+						out2, err := st.A.PutObject(st.ctx(), s3response.PutObjectInput{Bucket: sp(c09Bucket), Key: sp("k1"), Body: bytes.NewReader(vals[1].Body), ContentLength: i64(int64(len(vals[1].Body))), ContentType: &vals[1].CT, Metadata: map[string]string{"w": vals[1].Meta}})
+						if err != nil || out2.VersionID == "" {
+							ck.Fatal("seed second version: %v", err)
+						}
+						st.pinTimes(-2)
+						m.Keys["k1"] = []c09Ver{{out2.VersionID, 1, false}, {"null", -1, true}, {out.VersionID, 0, false}}
+						if start == 5 {
+							// ... and then a null version written while Suspended, which supersedes the stored null marker
+							if err := st.A.PutBucketVersioning(st.ctx(), c09Bucket, types.BucketVersioningStatusSuspended); err != nil {
+								ck.Fatal("suspend: %v", err)
+							}
+							if err := st.put(st.A, c09Bucket, "k1", vals[3]); err != nil {
+								ck.Fatal("seed null version: %v", err)
+							}
+							if err := st.A.PutBucketVersioning(st.ctx(), c09Bucket, types.BucketVersioningStatusEnabled); err != nil {
+								ck.Fatal("re-enable: %v", err)
+							}
+							st.pinTimes(-1)
+							m.Keys["k1"] = []c09Ver{{"null", 3, false}, {out2.VersionID, 1, false}, {out.VersionID, 0, false}}
+						}
+					}
 					report := func(i int, an string) {
 						var names []string
 						for _, h := range hist[:i+1] {
@@ -658,6 +697,9 @@ func C09(r *ck.Run) {
 						if start == 3 {
 							mode = "suspended-bucket"
 						}
+						if start == 4 || start == 5 {
+							mode = "stored-null-marker"
+						}
 						for _, h := range hist[:i+1] {
 							if alpha[h].Kind == "suspend" {
 								mode = "suspend-in-history"
@@ -672,7 +714,7 @@ func C09(r *ck.Run) {
 							}
 							sig = ck.JoinSig(mode, kind)
 						}
-						r.Violation(sig, map[string]any{"config": cfg.String(), "start": []string{"fresh enabled bucket", "object k1 predates enabling (null version)", "k1 has a version and a newer null version written while suspended", "k1 has a version, the bucket is Suspended"}[start],
+						r.Violation(sig, map[string]any{"config": cfg.String(), "start": []string{"fresh enabled bucket", "object k1 predates enabling (null version)", "k1 has a version and a newer null version written while suspended", "k1 has a version, the bucket is Suspended", "k1 has a version, a null delete marker written while suspended and a newer version", "k1 has two versions and a null version that superseded a stored null delete marker"}[start],
 							"program": names, "model": m.key()})
 					}
 					for i, oi := range hist {
